@@ -524,6 +524,11 @@ def harness(E, cfg):
                 import tensorly.preprocessing as _pp
 
                 backend.patch(_pp, "svd_interface", stub_orthonormal_svd)
+                import tensorly.parafac2_tensor as _p2t
+
+                # the numerical orthonormality test of the validator (max|P^T P - I| > 1e-5 on products of stub frames) is not this
+                # property's subject and its feasibility query is slow: structural part only
+                backend.patch(_p2t, "_validate_parafac2_tensor", lambda t: (tuple((np.shape(p_)[0], np.shape(t[1][2])[0]) for p_ in t[2]), np.shape(t[1][0])[1]))
             scores, loadings = svd_compress_tensor_slices(sl, compression_threshold=0.0)
             w = snap.arr("weights", np.array(E.real("w", (1,))))
             fs = snap.cont("factor_list", [snap.arr(f"factor{k}", np.array(E.real(f"F{k}", (n, 1)))) for k, n in enumerate((2, 1, 2))])
